@@ -89,6 +89,11 @@ class ModelGroup:
             self._log.info("Model: %r", model.name)
             if _verif.ENABLED:
                 _verif.emit("model_begin", group=self._name, model=model.name)
+
+            if debug:
+                # Keep the buckets as they are just before running this model
+                ds_before = detector.to_xarray().copy(deep=True)
+
             try:
                 model(detector)
             except Exception as exc:
@@ -188,16 +193,16 @@ class ModelGroup:
 
                 # TODO: Refactor. Is 'last' needed ?
                 last_key: str = "last"
-                if last_key not in detector.intermediate:
-                    last_full_ds: xr.Dataset = xr.zeros_like(ds)
-                else:
-                    last_full_ds = detector.intermediate[last_key]  # type: ignore
 
+                # Store the buckets that this model changed (or initialised)
                 for name, data_array in ds.data_vars.items():
-                    if name in last_full_ds:
-                        previous_data_array = last_full_ds[name]
+                    if name in ds_before:
+                        previous_data_array = ds_before[name]
 
-                        if not np.allclose(data_array, previous_data_array):
+                        if (
+                            data_array.shape != previous_data_array.shape
+                            or not np.allclose(data_array, previous_data_array)
+                        ):
                             detector.intermediate[
                                 f"{pipeline_key}/{model_group_key}/{model_key}/{name}"
                             ] = data_array
